@@ -122,6 +122,25 @@ func GenCaseOpt(r *core.Rng, id int, getter bool) *conv.Case {
 		gen.DecorateSafe(r, s, d, []float64{0, 0.2, 0.3}[id%3])
 		cfg = gen.RandomCfgSafe(r, s)
 	}
+	if id%3 == 2 {
+		// all variables on one source line, input-object typed ones first (a per-line or
+		// per-position slip in how the preceding comment is attached shows only then); with
+		// use_struct_references the input-object variable gets options of its own
+		for _, o := range d.Ops {
+			if len(o.Vars) > 1 {
+				for _, v := range o.Vars {
+					if t := s.Get(v.Type.Base()); t != nil && t.Kind == "INPUT" {
+						cfg.StructReferences = true
+					}
+				}
+			}
+			o.VarsOneLine = true
+			sort.SliceStable(o.Vars, func(i, j int) bool {
+				ti, tj := s.Get(o.Vars[i].Type.Base()), s.Get(o.Vars[j].Type.Base())
+				return ti != nil && ti.Kind == "INPUT" && (tj == nil || tj.Kind != "INPUT")
+			})
+		}
+	}
 	defs := d.Defs()
 	if id%4 == 1 {
 		defs = append(defs, gen.CaseFoldDefs(r, s)...)
@@ -155,6 +174,13 @@ func GenCaseOpt(r *core.Rng, id int, getter bool) *conv.Case {
 	if variant == 3 && id%2 == 0 {
 		if tw := gen.InlineTwinOp(r, s, "TwinIface"); tw != nil {
 			defs = append(defs, tw)
+		}
+	}
+	if id%6 == 2 {
+		// an input-object variable and scalar variables on one line, under use_struct_references
+		if iv := gen.InputThenScalarsOp(s, "IV"); iv != nil {
+			defs = append(defs, iv)
+			cfg.StructReferences = true
 		}
 	}
 	if id%12 == 11 {
